@@ -13,6 +13,16 @@ import time
 
 ROOT = os.path.dirname(os.path.dirname(os.path.abspath(__file__)))
 REPO = "/repo"
+# EVAL_WT=<dir>: evaluate in a scratch git worktree of /repo's HEAD instead of /repo's own working tree (created on demand, reset to HEAD
+# before use); the checks are then run with VERIF_REPO=<dir>.  /repo itself is never touched in that mode.
+if os.environ.get("EVAL_WT"):
+    _wt = os.environ["EVAL_WT"]
+    _head = subprocess.run("git -C /repo rev-parse HEAD", shell=True, capture_output=True, text=True).stdout.strip()
+    if not os.path.exists(os.path.join(_wt, ".git")):
+        subprocess.run("git -C /repo worktree add --detach %s %s" % (_wt, _head), shell=True, capture_output=True)
+    subprocess.run("git -C %s checkout -q --detach %s && git -C %s checkout -- . && git -C %s clean -fdq -- bip_utils" % (_wt, _head, _wt, _wt), shell=True)
+    REPO = _wt
+    os.environ["VERIF_REPO"] = _wt
 PY = "/venv/bin/python"
 
 
